@@ -256,7 +256,20 @@ func makeRoot(kind, page string, r *rand.Rand, g *docGen) (*html.Node, string) {
 			return n, "handbuilt:" + n.Data
 		}
 		els := allElements(doc)
-		e := cloneDeep(els[r.Intn(len(els))])
+		pick := els[r.Intn(len(els))]
+		if r.Intn(3) == 0 {
+			// a fragment cut out around the pager (a widget rendered on its own): nothing above it, nothing beside it
+			for _, e := range els {
+				if c, _ := attr(e, "class"); c == "pg" {
+					pick = e
+					if e.Parent != nil && e.Parent.Type == html.ElementNode && e.Parent.Data != "body" && r.Intn(2) == 0 {
+						pick = e.Parent
+					}
+					break
+				}
+			}
+		}
+		e := cloneDeep(pick)
 		return e, "detached:" + e.Data
 	}
 	return doc, "document"
